@@ -51,6 +51,17 @@ Definition run_now (m : ovf_mode) (args : list tok) : list byte :=
   | [t] => match get_N t with Some n => show_res show_N (now m n) | None => bad_case end
   | _ => bad_case
   end.
+(* TICK <r1> <r2> ..: dtn_time_now() under a ticking clock (every clock read takes the next reading): the model reads the clock once *)
+Definition run_tick (m : ovf_mode) (args : list tok) : list byte :=
+  match args with
+  | t :: _ => match get_N t with
+              | Some n => match now m n with
+                          | Ok v => join [S_ "OK"; show_N v; S_ "READS"; show_N 1; S_ "FIRST"; show_N n; S_ "LAST"; show_N n]
+                          | Err _ => S_ "ERR" | Panic _ => S_ "PANIC"
+                          end
+              | None => bad_case end
+  | _ => bad_case
+  end.
 
 (* ---- K-dec / K-enc / K-crc ---- *)
 Definition run_dec (args : list tok) : list byte :=
@@ -78,6 +89,14 @@ Definition run_rt (args : list tok) : list byte :=
       let '(bs, b') := to_cbor b in
       let '(bs2, _) := to_cbor b' in
       join [S_ "OK"; show_bytes bs; show_bundle b'; S_ "DECODED"; show_res show_bundle (from_cbor bs); S_ "AGAIN"; show_bytes bs2]
+  | _ => bad_case
+  end.
+(* RTV <bundle>: encode; the library's own CRC check on the bundle just encoded (in memory) and on the decoded wire image *)
+Definition run_rtv (args : list tok) : list byte :=
+  match parse_bundle args with
+  | Some (b, []) =>
+      let '(bs, b') := to_cbor b in
+      join [S_ "OK"; S_ "MEM"; show_bool (crc_valid b'); S_ "WIRE"; show_res show_bool (rmap crc_valid (from_cbor bs))]
   | _ => bad_case
   end.
 (* SPEC <bundle>: the RFC 9171 specification encoder (compared with the implementation's to_cbor) *)
@@ -115,6 +134,7 @@ Definition run_cmd (m : ovf_mode) (cmd : tok) (args : list tok) : list byte :=
   else if tok_is cmd "TSTR" then run_tstr args
   else if tok_is cmd "TSFMT" then run_tsfmt args
   else if tok_is cmd "NOW" then run_now m args
+  else if tok_is cmd "TICK" then run_tick m args
   else if tok_is cmd "SCHED" then run_sched args
   else if tok_is cmd "SCHEDP" then run_sched_pinned args
   else if tok_is cmd "VALIDATE" then run_validate args
@@ -124,6 +144,7 @@ Definition run_cmd (m : ovf_mode) (cmd : tok) (args : list tok) : list byte :=
   else if tok_is cmd "ENC" then run_enc args
   else if tok_is cmd "CRCV" then run_crcv args
   else if tok_is cmd "RT" then run_rt args
+  else if tok_is cmd "RTV" then run_rtv args
   else if tok_is cmd "SPEC" then run_spec args
   else if tok_is cmd "DECRT" then run_decrt args
   else if tok_is cmd "CRC16" then run_crc16 args
